@@ -172,16 +172,24 @@ def call_untouched(eng, st, c):
     return z3.And(PM._call_untouched(a, a0, c), tn[c] == tn0[c])
 
 
+def _ascending(a, c):
+    """a fully known genotype lists its alleles in ascending order"""
+    i, j = z3.Ints(fresh_name("i") + " " + fresh_name("j"))
+    val = lambda k: OPTINT.dt.val(a["gt"][c][k])
+    known = z3.ForAll([i], z3.Implies(z3.And(i >= 0, i < a["gtlen"][c]), z3.Not(OPTINT.dt.is_none(a["gt"][c][i]))))
+    return z3.Implies(z3.And(z3.Not(a["none"][c]), known), z3.ForAll([i, j], z3.Implies(z3.And(0 <= i, i < j, j < a["gtlen"][c]), val(i) <= val(j))))
+
+
 @R.spec
 def state_none(eng, st, c, r):
-    """NONE: no phase statement left on the call"""
+    """NONE: no phase statement left on the call (and its genotype, if fully known, in ascending allele order)"""
     a, a0 = _arrs(eng, st), _arrs(eng, st.old)
     c, r = to_z3(c), to_z3(r)
     K = _keys(eng)
     tn = _tag(eng, st, 0)[0]
     i = z3.Int(fresh_name("i"))
     nobits = forall_pat([i], z3.Implies(i >= 1, z3.Not(a["ph"][c][i])), [a["ph"][c][i]])
-    return z3.And(z3.Implies(a0["fmt"][r][K["GT"]], nobits), z3.Implies(a0["fmt"][r][K["HP"]], tn[c][K["HP"]]), z3.Implies(a0["fmt"][r][K["PS"]], tn[c][K["PS"]]))
+    return z3.And(z3.Implies(a0["fmt"][r][K["GT"]], z3.And(nobits, _ascending(a, c))), z3.Implies(a0["fmt"][r][K["HP"]], tn[c][K["HP"]]), z3.Implies(a0["fmt"][r][K["PS"]], tn[c][K["PS"]]))
 
 
 @R.spec
@@ -204,8 +212,11 @@ def state_new(eng, st, c, j, pos, r):
         forall_pat([i], z3.Implies(i >= 1, a["ph"][c][i]), [a["ph"][c][i]]),
         z3.Not(tn[c][K["PS"]]), ti[c][K["PS"]] == comp.map[pos] + 1,
         z3.Implies(a0["fmt"][r][K["HP"]], tn[c][K["HP"]]))
+    ascending = _ascending(a, c)
     with_hp = z3.And(
         z3.Not(tn[c][K["HP"]]),
+        # the HP text is read against the order of the alleles in GT (_extract_HP_phase): a fully known genotype is in ascending order (defect F19)
+        z3.Implies(a0["fmt"][r][K["GT"]], ascending),
         z3.Implies(a0["fmt"][r][K["GT"]], forall_pat([i], z3.Implies(i >= 1, z3.Not(a["ph"][c][i])), [a["ph"][c][i]])),
         z3.Implies(a0["fmt"][r][K["PS"]], tn[c][K["PS"]]))
     return z3.And(comps.dom[j], phases.dom[j], comp.dom[pos], from_z3(phases.map[j], phases.val).dom[pos], z3.If(tagv == K["PS"], with_ps, with_hp))
